@@ -197,6 +197,19 @@ def fam_magnitude(tier):
           ("two-lists", [OPTS(["1e-7"]), OPTS(["2e-7"])])],
          [("1e-7", None), ("2e-7", None), ("0.0000002", None)],
          [("5e-7", None), ("3e-7", None), ("4e-7", None), ("1e-6", None)]),
+        ("1e-9-s", "s",
+         [("per-line-ns", [OPT("1", "ns"), OPT("2", "ns")]), ("list-s", [OPTS(["1e-9", "2e-9"], "s")]),
+          ("list-plain", [OPTS(["1e-9", "2e-9"])])],
+         [("1e-9", None), ("2e-9", None), ("2", "ns"), ("0.001", "us")],
+         [("5e-9", None), ("3e-9", None), ("5", "ns"), ("1.5", "ns"), ("1.00001e-9", None), ("0.003", "us")]),
+        ("1e-12-plain", None,
+         [("per-line", [OPT("1e-12"), OPT("2e-12")]), ("list", [OPTS(["1e-12", "2e-12"])])],
+         [("1e-12", None), ("2e-12", None), ("1.000000000001e-12", None)],
+         [("5e-12", None), ("3e-12", None), ("1.5e-12", None), ("1.00001e-12", None), ("1e-13", None)]),
+        ("1e-12-s", "s",
+         [("list-ns", [OPTS(["0.001", "0.002"], "ns")]), ("list-plain", [OPTS(["1e-12", "2e-12"])])],
+         [("1e-12", None), ("0.002", "ns")],
+         [("5e-12", None), ("0.003", "ns"), ("1e-11", None)]),
         ("1e7-m", "m",
          [("list", [OPTS(["1e7", "2e7"])]), ("list-km", [OPTS(["10000", "20000"], "km")])],
          [("1e7", None), ("20000000", None), ("10000", "km")],
@@ -215,11 +228,15 @@ def fam_magnitude(tier):
         # == / != conditions against the first two accepted values
         a = ["num", good[0][0], unit]
         b = ["num", good[1][0], unit]
-        a2 = ["num", "100", "ns"] if unit == "s" else a
+        a2 = ["num", G.dec(G.F(good[0][0]) * 10 ** 9), "ns"] if unit == "s" else a
         conds = [("eq", ["cmp", "==", SELF, a]), ("eq-reversed", ["cmp", "==", a, SELF]),
                  ("eq-or-eq", ["or", ["cmp", "==", SELF, a], ["cmp", "==", SELF, b]]),
                  ("ne", ["cmp", "!=", SELF, a]), ("ne-and-ne", ["and", ["cmp", "!=", SELF, a], ["cmp", "!=", SELF, b]]),
-                 ("eq-other-unit", ["cmp", "==", SELF, a2]), ("ne-other-unit", ["cmp", "!=", a2, SELF])]
+                 ("eq-other-unit", ["cmp", "==", SELF, a2]), ("ne-other-unit", ["cmp", "!=", a2, SELF]),
+                 ("le-and-ge", ["and", ["cmp", "<=", SELF, b], ["cmp", ">=", SELF, a]]),
+                 # strict comparisons only against thresholds between the values (never exactly on a boundary)
+                 ("lt-or-gt", ["or", ["cmp", "<", SELF, ["num", G.dec(G.F(good[0][0]) * 2 / 5), unit]],
+                               ["cmp", ">", SELF, ["num", G.dec(G.F(good[0][0]) * 17 / 10), unit]]])]
         for (cname, expr), (ftag, final) in itertools.product(conds, finals):
             for ptag, d, mods, conv, interm in paths_numeric("float", unit, final, final[0] if final[1] is None
                                                              else v_ok, None, tier):
@@ -340,8 +357,9 @@ def fam_num_pairs(tier):
                         "final=" + ftxt, "path=mod1-converted", "order=%d" % order], d, props, mods)
 
 
-STR_VALUES = ["abc", "Abc", "abd", "123", "ab1", "XYZ", "ab c"]
-STR_FORMATS = [("lower", "^[a-z]+$"), ("capitalised", "^[A-Z][a-z]*$"), ("three-digits", "^\\d{3}$")]
+STR_VALUES = ["abc", "Abc", "abd", "123", "ab1", "XYZ", "ab c", ""]
+STR_FORMATS = [("lower", "^[a-z]+$"), ("capitalised", "^[A-Z][a-z]*$"), ("three-digits", "^\\d{3}$"),
+               ("lower-or-empty", "^[a-z]*$"), ("digits-or-empty", "^\\d*$")]
 
 
 def _str_paths(final, ok, other, tier):
@@ -400,6 +418,76 @@ def fam_str(tier):
         if len(props) >= 2 and tier == "thorough":
             yield (["type=str", "kind=" + "+".join(kinds), "final=" + final, "path=def", "props-reversed"] + tg,
                    D("a", "str", S(final)), props[::-1], [])
+
+
+def _mixed_forms(atoms3, atoms4=None):
+    """unparenthesised mixes of || and &&; && binds tighter (documented priorities 3 and 4)"""
+    a, b, c = atoms3
+    yield "a||b&&c", ["or", a, ["and", b, c]]
+    yield "a&&b||c", ["or", ["and", a, b], c]
+    if atoms4:
+        a, b, c, d = atoms4
+        yield "a||b&&c||d", ["or", ["or", a, ["and", b, c]], d]
+        yield "a&&b||c&&d", ["or", ["and", a, b], ["and", c, d]]
+        yield "a||b||c&&d", ["or", ["or", a, b], ["and", c, d]]
+        yield "a&&b&&c||d", ["or", ["and", ["and", a, b], c], d]
+
+
+def fam_mixed_logic(tier):
+    """conditions mixing || and && without parentheses: every truth assignment of the operands is reached by
+    choosing, per position, an atom that is true or false for the node's final value"""
+    specs = []
+    # (type, unit, final value, per-position true atoms, per-position false atoms)
+    for typ, unit in (("int", None), ("int", "m"), ("float", None), ("float", "m")):
+        def N(t, u=unit):
+            return ["num", t, u]
+        alt = (lambda t: ["num", str(int(t) * 100), "cm"]) if unit else N
+        T = [["cmp", "==", SELF, N("3")], ["cmp", "<=", SELF, alt("20")], ["cmp", ">=", SELF, N("2")],
+             ["cmp", "<", alt("1"), SELF]]
+        Fa = [["cmp", "==", SELF, alt("4")], ["cmp", ">", SELF, N("5")], ["cmp", ">=", SELF, alt("10")],
+              ["cmp", "!=", SELF, N("3")]]
+        specs.append((typ, unit, "3", T, Fa))
+    Ts = [["cmp", "==", SELF, ["str", "abc"]], ["cmp", "!=", SELF, ["str", "abd"]], ["cmp", "==", ["str", "abc"], SELF],
+          ["cmp", "!=", SELF, ["str", "XYZ"]]]
+    Fs = [["cmp", "==", SELF, ["str", "xyz"]], ["cmp", "!=", SELF, ["str", "abc"]], ["cmp", "==", SELF, ["str", "Abc"]],
+          ["cmp", "==", ["str", "abd"], SELF]]
+    specs.append(("str", None, S("abc"), Ts, Fs))
+    for bv in (True, False):
+        Tb = [SELF if bv else ["not", SELF], ["cmp", "==", SELF, ["bool", bv]], ["bool", True],
+              ["cmp", "!=", SELF, ["bool", not bv]]]
+        Fb = [["not", SELF] if bv else SELF, ["cmp", "==", SELF, ["bool", not bv]], ["bool", False],
+              ["cmp", "!=", SELF, ["bool", bv]]]
+        specs.append(("bool", None, bv, Tb, Fb))
+    for typ, unit, final, T, Fa in specs:
+        for n in (3, 4):
+            if n == 4 and tier != "thorough" and not (typ == "int" and unit is None):
+                continue
+            for assign in itertools.product((True, False), repeat=n):
+                atoms = [(T if v else Fa)[i] for i, v in enumerate(assign)]
+                forms = list(_mixed_forms(atoms[:3], atoms if n == 4 else None))
+                forms = forms[:2] if n == 3 else forms[2:]
+                for fname, expr in forms:
+                    tg = ["type=" + typ, "unit=" + str(unit), "kind=condition", "cond=mixed:" + fname,
+                          "truth=" + "".join("T" if v else "F" for v in assign)]
+                    d0 = D("a", typ, final, unit)
+                    yield tg + ["path=def"], d0, [COND(expr)], []
+                    yield tg + ["path=mod1"], d0, [COND(expr)], [M("a", final)]
+                    yield tg + ["path=decl"], D("a", typ, None, unit), [COND(expr)], [M("a", final)]
+    # the documented style "exact value or inside an interval", over values in / outside both alternatives
+    for typ, unit in (("int", None), ("float", "m")):
+        u = unit
+        e1 = ["or", ["cmp", "==", SELF, ["num", "1", u]],
+              ["and", ["cmp", "<=", SELF, ["num", "20", u]], ["cmp", ">=", SELF, ["num", "10", u]]]]
+        e2 = ["or", ["and", ["cmp", ">=", SELF, ["num", "10", u]], ["cmp", "<=", SELF, ["num", "20", u]]],
+              ["cmp", "==", SELF, ["num", "1", u]]]
+        e3 = ["or", ["cmp", "==", SELF, ["num", "1000", u]],
+              ["and", ["cmp", ">=", SELF, ["num", "1", u]], ["cmp", "<=", SELF, ["num", "64", u]]]]
+        for (ename, expr), ftxt in itertools.product((("value-or-interval", e1), ("interval-or-value", e2),
+                                                     ("large-value-or-interval", e3)),
+                                                    ("1", "5", "10", "15", "20", "30", "64", "1000")):
+            tg = ["type=" + typ, "unit=" + str(unit), "kind=condition", "cond=mixed:" + ename, "final=" + ftxt]
+            yield tg + ["path=def"], D("a", typ, ftxt, unit), [COND(expr)], []
+            yield tg + ["path=mod1"], D("a", typ, "15", unit), [COND(expr)], [M("a", ftxt)]
 
 
 def fam_bool(tier):
@@ -547,12 +635,12 @@ def fam_dims_missing(tier):
                [row, D("a", typ, {"ref": {"src": None, "path": "row", "slice": [[1, 3]]}}, None, [[2, 2]])], [], [])
 
 
-FAMILIES = dict(magnitude=fam_magnitude, int_options_nonintegral=fam_int_options_nonintegral,
+FAMILIES = dict(mixed_logic=fam_mixed_logic, magnitude=fam_magnitude, int_options_nonintegral=fam_int_options_nonintegral,
                 dims_missing=fam_dims_missing,
                 num_options=fam_num_options, num_condition=fam_num_condition, num_pairs=fam_num_pairs,
                 str=fam_str, bool=fam_bool, declared=fam_declared, dims=fam_dims)
 # families in which both verdicts must occur (vacuity guard)
-BOTH = ["num_options", "num_condition", "num_pairs", "str", "bool", "declared", "dims", "dims_missing", "magnitude"]
+BOTH = ["num_options", "num_condition", "num_pairs", "str", "bool", "declared", "dims", "dims_missing", "magnitude", "mixed_logic"]
 
 
 # ------------------------------------------------------------------------------------------------ judging
